@@ -1,8 +1,10 @@
 import MosnVerif.Drive.Downstream
 import MosnVerif.Drive.DownstreamMC
 import MosnVerif.Model.DownstreamSpec
+import MosnVerif.Drive.C10Tcp
 /-!
-C10 driver.  `A` = the model's trace, ledger and done flag equal the implementation's.
+C10 driver.  Kind `tcp` (stream proxy sessions on real sockets): see `Drive/C10Tcp.lean`.  Kinds `hist` / `mc`:
+`A` = the model's trace, ledger and done flag equal the implementation's.
 `Spec` (about the IMPLEMENTATION's final ledger, against the case only: ambient load `ar`,`aq`, thresholds `mr`,`mq`):
   1. no counter is below what the other requests hold: retries ≥ ar, requests ≥ aq, upstream gauge ≥ 0, and this request
      holds at most one slot of each: retries ≤ ar+1, requests ≤ aq+1                         — theorems `cur_nonneg`, `ledger_exact`
@@ -29,6 +31,7 @@ def spec (cs : Case) (i : Impl) : Bool :=
 
 def run (caseToks impl : List String) : String :=
   if caseToks.head? == some "mc" then DownstreamMC.run caseToks else
+  if caseToks.head? == some "tcp" then C10Tcp.run caseToks impl else
   match parseCase caseToks, parseImpl impl with
   | some cs, some i =>
     let out := render (modelOut cs)
